@@ -142,7 +142,7 @@ def answer (line : String) : String :=
     | "sum" :: p :: r :: ab :: xs => do
       let l ← parseMpfs xs
       pure (showMpf (mpf_sum l (← parseInt p) (← parseRnd r) (ab == "1")))
-    | _ => (DrvHash.answer toks) <|> (DrvCplxIv.answer toks) <|> (DrvStr.answer toks) <|> (DrvIntFun.answer toks) <|> (DrvCache.answer toks) <|> (DrvEncl.answer toks) <|> (Mp.DrvSkel.answer toks) <|> (DrvCert.answer toks) <|> (DrvHelpers.answer toks) <|> (DrvRootCert.answer toks) <|> (DrvWorld.answer toks) <|> (DrvRelCert.answer toks) <|> (DrvBackend.answer toks) <|> (DrvSpecRef.answer toks) <|> (DrvCalcRef.answer toks) <|> (DrvOdeSeg.answer toks) <|> (DrvSpecRef2.answer toks)
+    | _ => (DrvHash.answer toks) <|> (DrvCplxIv.answer toks) <|> (DrvStr.answer toks) <|> (DrvIntFun.answer toks) <|> (DrvCache.answer toks) <|> (DrvEncl.answer toks) <|> (Mp.DrvSkel.answer toks) <|> (DrvCert.answer toks) <|> (DrvHelpers.answer toks) <|> (DrvRootCert.answer toks) <|> (DrvWorld.answer toks) <|> (DrvRelCert.answer toks) <|> (DrvBackend.answer toks) <|> (DrvSpecRef.answer toks) <|> (DrvCalcRef.answer toks) <|> (DrvOdeSeg.answer toks) <|> (DrvSpecRef2.answer toks) <|> (DrvCalcSerX.answer toks) <|> (DrvCalcOdeX.answer toks)
   r.getD bad
 
 end Drv
